@@ -71,9 +71,21 @@ func runC14(c *core.Ctx) {
 		base := append([]string{"--no-color"}, opts...)
 		args1 := append(append(append([]string{}, base...), "-l", "log.yaml"), period...)
 		args1 = append(args1, "print")
+		stray := false
+		if i%6 == 5 {
+			// words the command has no use for (a stray argument, a flag after one, anything after "--"): if the
+			// command accepts them, what it prints is still the log in normal form
+			args1 = append(args1, [][]string{{"extra"}, {"extra", "-e", w.Log[0].Date.Format(layout)}, {"--", "-b", "x"}, {"log.yaml"}}[r.Intn(4)]...)
+			stray = true
+			c.Count("print_with_stray_arguments", 1)
+		}
 		p1 := srv.App1(args1, env)
 		c.Eval(1)
 		doc := caseDoc{Files: files, Args: args1, Env: env, Observed: resDoc(p1)}
+		if stray && p1.Exit != 0 && p1.Panic == "" {
+			c.Count("print_with_stray_arguments_rejected", 1)
+			return
+		}
 		if p1.Exit != 0 || p1.Panic != "" {
 			c.Violation("print|fails-on-valid-input", fmt.Sprintf("exit %d err %q %s", p1.Exit, p1.Err, clip(p1.Panic, 200)), doc)
 			return
